@@ -179,13 +179,13 @@ Lemma nlen_cons {A} (x : A) l : nlen (x :: l) = 1 + nlen l.
 Proof. unfold nlen. cbn [length]. lia. Qed.
 
 Lemma read_entries_rt : forall es fuel acc rest,
-  (length es <= fuel)%nat -> forallb entry_ok es = true ->
+  (length es <= length fuel)%nat -> forallb entry_ok es = true ->
   forallb (fun e => entry_size e <=? read_bytes_limit) es = true ->
   read_entries fuel (nlen es) acc (concat (map entry_frame es) ++ rest) = DOk (acc ++ es, rest).
 Proof.
   induction es as [|e es IH]; intros fuel acc rest Hf Hok Hsz.
   - rewrite app_nil_r. destruct fuel; reflexivity.
-  - destruct fuel as [|f]; [cbn in Hf; lia|].
+  - destruct fuel as [|x0 f]; [cbn in Hf; lia|].
     cbn [forallb] in Hok, Hsz. apply andb_true_iff in Hok as [He Hes]. apply andb_true_iff in Hsz as [Hs Hss].
     apply N.leb_le in Hs. pose proof limit_lt_two63 as L63.
     cbn [read_entries map concat]. rewrite nlen_cons.
@@ -271,7 +271,7 @@ Proof.
       replace (read_bytes_limit / 8 <? nlen (m_entries m)) with false by lia.
       rewrite (make_entries_ok _ Hn).
       rewrite read_entries_rt; [|idtac|assumption|assumption].
-      2:{ rewrite app_length.
+      2:{ cbn [length]. rewrite app_length.
           pose proof (concat_map_length_ge entry_frame (m_entries m) entry_frame_len1). lia. }
       cbn [dbind app]. rewrite read_u64_app by assumption. cbn [dbind].
       rewrite <- Em. reflexivity.
@@ -380,7 +380,7 @@ Definition eof_like (e : derr) : Prop := e = DEof \/ e = DUnexpEof.
 Lemma read_entries_ext : forall fuel cnt acc p q es r,
   read_entries fuel cnt acc p = DOk (es, r) -> read_entries fuel cnt acc (p ++ q) = DOk (es, r ++ q).
 Proof.
-  induction fuel as [|f IH]; intros cnt acc p q es r H; cbn [read_entries] in *.
+  induction fuel as [|x0 f IH]; intros cnt acc p q es r H; cbn [read_entries] in *.
   - destruct (cnt =? 0); [|discriminate]. inversion H; subst. reflexivity.
   - destruct (cnt =? 0); [inversion H; subst; reflexivity|].
     destruct (read_u64 p) as [[size s1]|e] eqn:E1; cbn [dbind] in *; [|discriminate].
@@ -394,25 +394,25 @@ Proof.
 Qed.
 
 Lemma read_entries_mono : forall f f' cnt acc s x,
-  (f <= f')%nat -> read_entries f cnt acc s = DOk x -> read_entries f' cnt acc s = DOk x.
+  (length f <= length f')%nat -> read_entries f cnt acc s = DOk x -> read_entries f' cnt acc s = DOk x.
 Proof.
-  induction f as [|f IH]; intros f' cnt acc s x Hle H; cbn [read_entries] in H.
+  induction f as [|x0 f IH]; intros f' cnt acc s x Hle H; cbn [read_entries] in H.
   - destruct (cnt =? 0) eqn:E; [|discriminate]. destruct f'; cbn [read_entries]; rewrite E; exact H.
-  - destruct f' as [|f']; [lia|]. cbn [read_entries].
+  - destruct f' as [|x1 f']; [cbn in Hle; lia|]. cbn [read_entries].
     destruct (cnt =? 0); [exact H|].
     destruct (read_u64 s) as [[size s1]|e]; cbn [dbind] in *; [|discriminate].
     destruct (read_bytes_limit <? size); [discriminate|].
     destruct ((v2_buf_size <? size) && make_panics size 1); [discriminate|].
     destruct (read_full size s1) as [[buf s2]|e]; cbn [dbind] in *; [|discriminate].
     destruct (lift (entry_unmarshal buf)) as [e|e]; cbn [dbind] in *; [|discriminate].
-    apply IH; [lia|exact H].
+    apply IH; [cbn in Hle; lia|exact H].
 Qed.
 
 (* each iteration consumes the 8 length bytes: fuel above the stream length is never exhausted *)
 Lemma read_entries_no_fuel : forall fuel cnt acc s,
-  (length s < fuel)%nat -> read_entries fuel cnt acc s <> DErr DFuel.
+  (length s < length fuel)%nat -> read_entries fuel cnt acc s <> DErr DFuel.
 Proof.
-  induction fuel as [|f IH]; intros cnt acc s Hf; [lia|]. cbn [read_entries].
+  induction fuel as [|x0 f IH]; intros cnt acc s Hf; [cbn in Hf; lia|]. cbn [read_entries].
   destruct (cnt =? 0); [discriminate|].
   destruct (read_u64 s) as [[size s1]|e] eqn:E1; cbn [dbind].
   2:{ apply read_u64_err_inv in E1. destruct E1; subst; discriminate. }
@@ -425,31 +425,31 @@ Proof.
   apply IH.
   apply read_u64_ok_inv in E1. destruct E1 as [a [-> Ha]].
   apply read_full_ok_inv in E2. destruct E2 as [-> _].
-  rewrite !app_length in Hf. unfold len in Ha. lia.
+  rewrite !app_length in Hf. cbn [length] in Hf. unfold len in Ha. lia.
 Qed.
 
 Lemma read_entries_err_ext : forall fuel cnt acc p q e,
   read_entries fuel cnt acc p = DErr e ->
-  eof_like e \/ e = DFuel \/ (forall f', (fuel <= f')%nat -> read_entries f' cnt acc (p ++ q) = DErr e).
+  eof_like e \/ e = DFuel \/ (forall f', (length fuel <= length f')%nat -> read_entries f' cnt acc (p ++ q) = DErr e).
 Proof.
-  induction fuel as [|f IH]; intros cnt acc p q e H; cbn [read_entries] in H.
+  induction fuel as [|x0 f IH]; intros cnt acc p q e H; cbn [read_entries] in H.
   - destruct (cnt =? 0); [discriminate|]. inversion H. auto.
   - destruct (cnt =? 0) eqn:Ec; [discriminate|].
     destruct (read_u64 p) as [[size s1]|e1] eqn:E1; cbn [dbind] in H.
     2:{ inversion H; subst. left. apply read_u64_err_inv in E1. exact E1. }
-    assert (Hhead : forall f', (S f <= f')%nat -> forall R,
+    assert (Hhead : forall f', (S (length f) <= length f')%nat -> forall R,
                (read_bytes_limit <? size = false -> (v2_buf_size <? size) && make_panics size 1 = false ->
-                forall f'', (f <= f'')%nat ->
+                forall f'', (length f <= length f'')%nat ->
                   (dlet '(buf, s2) <- read_full size (s1 ++ q);
                    dlet e0 <- lift (entry_unmarshal buf); read_entries f'' (cnt - 1) (acc ++ [e0]) s2) = R) ->
                (read_bytes_limit <? size = true -> R = DErr DLimit) ->
                (read_bytes_limit <? size = false -> (v2_buf_size <? size) && make_panics size 1 = true -> R = DErr DPanic) ->
                read_entries f' cnt acc (p ++ q) = R).
-    { intros f' Hle R H1 H2 H3. destruct f' as [|f'']; [lia|]. cbn [read_entries]. rewrite Ec.
+    { intros f' Hle R H1 H2 H3. destruct f' as [|x1 f'']; [cbn in Hle; lia|]. cbn [read_entries]. rewrite Ec.
       rewrite (read_u64_ext _ q _ _ E1). cbn [dbind].
       destruct (read_bytes_limit <? size) eqn:EL; [symmetry; apply H2; reflexivity|].
       destruct ((v2_buf_size <? size) && make_panics size 1) eqn:EP; [symmetry; apply H3; reflexivity|].
-      apply H1; [reflexivity|reflexivity|lia]. }
+      apply H1; [reflexivity|reflexivity|cbn in Hle; lia]. }
     destruct (read_bytes_limit <? size) eqn:EL.
     { inversion H; subst. right. right. intros f' Hle. apply Hhead; [exact Hle|discriminate|reflexivity|discriminate]. }
     destruct ((v2_buf_size <? size) && make_panics size 1) eqn:EP.
@@ -468,7 +468,7 @@ Qed.
 Lemma read_entries_suffix : forall fuel cnt acc s es r,
   read_entries fuel cnt acc s = DOk (es, r) -> (length r <= length s)%nat.
 Proof.
-  induction fuel as [|f IH]; intros cnt acc s es r H; cbn [read_entries] in H.
+  induction fuel as [|x0 f IH]; intros cnt acc s es r H; cbn [read_entries] in H.
   - destruct (cnt =? 0); [|discriminate]. inversion H; subst. lia.
   - destruct (cnt =? 0); [inversion H; subst; lia|].
     destruct (read_u64 s) as [[size s1]|e] eqn:E1; cbn [dbind] in H; [|discriminate].
@@ -494,9 +494,9 @@ Proof.
     rewrite (read_u64_ext _ q _ _ E1). cbn [dbind].
     destruct (read_bytes_limit / 8 <? l); [discriminate|].
     destruct (make_panics l entry_sizeof); [discriminate|].
-    destruct (read_entries (S (length s2)) l [] s2) as [[es s3]|e] eqn:E2; cbn [dbind]; [|discriminate].
-    rewrite (read_entries_mono (S (length s2)) (S (length (s2 ++ q))) _ _ _ _
-               ltac:(rewrite app_length; lia) (read_entries_ext _ _ _ _ q _ _ E2)).
+    destruct (read_entries (0 :: s2) l [] s2) as [[es s3]|e] eqn:E2; cbn [dbind]; [|discriminate].
+    rewrite (read_entries_mono (0 :: s2) (0 :: s2 ++ q) _ _ _ _
+               ltac:(cbn [length]; rewrite app_length; lia) (read_entries_ext _ _ _ _ q _ _ E2)).
     cbn [dbind].
     destruct (read_u64 s3) as [[commit s4]|e] eqn:E3; cbn [dbind]; [|discriminate].
     rewrite (read_u64_ext _ q _ _ E3). cbn [dbind].
@@ -526,14 +526,14 @@ Proof.
     rewrite (read_u64_ext _ q _ _ E1). cbn [dbind].
     destruct (read_bytes_limit / 8 <? l); [intro H; right; exact H|].
     destruct (make_panics l entry_sizeof); [intro H; right; exact H|].
-    destruct (read_entries (S (length s2)) l [] s2) as [[es s3]|e2] eqn:E2; cbn [dbind].
+    destruct (read_entries (0 :: s2) l [] s2) as [[es s3]|e2] eqn:E2; cbn [dbind].
     2:{ intro H; inversion H; subst.
         destruct (read_entries_err_ext _ _ _ _ q _ E2) as [Hl|[Hl|Hl]].
         - left. exact Hl.
-        - exfalso. subst. eapply read_entries_no_fuel; [|exact E2]. lia.
-        - right. rewrite Hl by (rewrite app_length; lia). reflexivity. }
-    rewrite (read_entries_mono (S (length s2)) (S (length (s2 ++ q))) _ _ _ _
-               ltac:(rewrite app_length; lia) (read_entries_ext _ _ _ _ q _ _ E2)).
+        - exfalso. subst. eapply read_entries_no_fuel; [|exact E2]. cbn [length]. lia.
+        - right. rewrite Hl by (cbn [length]; rewrite app_length; lia). reflexivity. }
+    rewrite (read_entries_mono (0 :: s2) (0 :: s2 ++ q) _ _ _ _
+               ltac:(cbn [length]; rewrite app_length; lia) (read_entries_ext _ _ _ _ q _ _ E2)).
     cbn [dbind].
     destruct (read_u64 s3) as [[commit s4]|e3] eqn:E3; cbn [dbind]; [discriminate|].
     intro H; inversion H; subst. left. eapply read_u64_err_inv; eauto. }
@@ -562,7 +562,7 @@ Proof.
     destruct (read_u64 s1) as [[l s2]|e] eqn:E1; cbn [dbind]; [|discriminate].
     destruct (read_bytes_limit / 8 <? l); [discriminate|].
     destruct (make_panics l entry_sizeof); [discriminate|].
-    destruct (read_entries (S (length s2)) l [] s2) as [[es s3]|e] eqn:E2; cbn [dbind]; [|discriminate].
+    destruct (read_entries (0 :: s2) l [] s2) as [[es s3]|e] eqn:E2; cbn [dbind]; [|discriminate].
     destruct (read_u64 s3) as [[commit s4]|e] eqn:E3; cbn [dbind]; [|discriminate].
     intro H. inversion H; subst.
     apply read_u64_ok_inv in E1. destruct E1 as [a [-> _]].
@@ -742,7 +742,7 @@ Qed.
 (* ---------- no panic, no exhausted fuel: for EVERY stream ---------- *)
 Lemma read_entries_no_panic : forall fuel cnt acc s, read_entries fuel cnt acc s <> DErr DPanic.
 Proof.
-  induction fuel as [|f IH]; intros cnt acc s; cbn [read_entries].
+  induction fuel as [|x0 f IH]; intros cnt acc s; cbn [read_entries].
   - destruct (cnt =? 0); discriminate.
   - destruct (cnt =? 0); [discriminate|].
     destruct (read_u64 s) as [[size s1]|e] eqn:E1; cbn [dbind].
@@ -767,10 +767,10 @@ Proof.
     2:{ apply read_u64_err_inv in E1. destruct E1; subst; split; discriminate. }
     destruct (read_bytes_limit / 8 <? l) eqn:EL; [split; discriminate|].
     rewrite make_entries_ok by lia.
-    destruct (read_entries (S (length s2)) l [] s2) as [[es s3]|e] eqn:E2; cbn [dbind].
+    destruct (read_entries (0 :: s2) l [] s2) as [[es s3]|e] eqn:E2; cbn [dbind].
     2:{ split; intro H; inversion H; subst.
         - eapply read_entries_no_panic; eauto.
-        - eapply read_entries_no_fuel; [|exact E2]. lia. }
+        - eapply read_entries_no_fuel; [|exact E2]. cbn [length]. lia. }
     destruct (read_u64 s3) as [[commit s4]|e] eqn:E3; cbn [dbind]; [split; discriminate|].
     apply read_u64_err_inv in E3. destruct E3; subst; split; discriminate. }
   destruct (typ =? frame_app); [|split; discriminate].
